@@ -152,7 +152,7 @@ Print Assumptions C44_mac_state_evolves.
    frames) is rejected with "bad header MAC" unless the truncated hash collides on
    the two different MAC inputs *)
 Theorem C44_out_of_order_detected :
-  forall cst cnext (H blk : list N -> list N),
+  forall cst cnext (H blk : list N -> list N) (_snappy_enc_unused : list N -> list N),
     (forall x, length (blk x) = 16%nat) -> (forall m, length (H m) = 32%nat) ->
     forall (c : cst) mR (wW : wstate cst (list N)) code data w' wire rest,
       code < 2 ^ 64 ->
